@@ -124,6 +124,52 @@ def _root_local(e):
     return None
 
 
+def _pop_depth_guard(body):
+    """the least stack length at which the removal in a `..` arm takes place, when the removal sits under a comparison of the
+    stack's `len()` with an integer literal (None: no such guard). `!is_empty()` / `len() > 0` is what `pop` does anyway."""
+    worst = None
+    stack = [(body, [])]
+    while stack:
+        n, guards = stack.pop()
+        if isinstance(n, list):
+            for v in n:
+                stack.append((v, guards))
+            continue
+        if not isinstance(n, dict):
+            continue
+        if n.get("k") == "If":
+            stack.append((n.get("cond"), guards))
+            stack.append((n.get("then"), guards + [n.get("cond")]))
+            for key in ("else", "els"):
+                if n.get(key) is not None:
+                    stack.append((n[key], guards))
+            continue
+        if n.get("k") == "MethodCall" and n.get("method") in ("pop", "truncate", "remove") and "alloc::vec::Vec" in (norm(n.get("recv_ty")) or ""):
+            for g in guards:
+                for c in subnodes(g):
+                    if c.get("k") != "Binary":
+                        continue
+                    l, r = c.get("l", {}), c.get("r", {})
+                    flip = False
+                    if not (l.get("k") == "MethodCall" and l.get("method") == "len"):
+                        l, r, flip = r, l, True
+                    if not (l.get("k") == "MethodCall" and l.get("method") == "len" and "alloc::vec::Vec" in (norm(l.get("recv_ty")) or "")):
+                        continue
+                    k = _int(r)
+                    if k is None:
+                        continue
+                    op = c.get("op")
+                    if flip:
+                        op = {">": "<", "<": ">", ">=": "<=", "<=": ">="}.get(op, op)
+                    least = {">": k + 1, ">=": k, "!=": (1 if k == 0 else None)}.get(op)
+                    if least is not None:
+                        worst = max(worst or 0, least)
+        for key, v in n.items():
+            if isinstance(v, (dict, list)):
+                stack.append((v, guards))
+    return worst
+
+
 def _vec_ops(body):
     """methods applied to a Vec receiver below `body`"""
     ops = []
@@ -171,7 +217,13 @@ def r20a(P, R):
                 R.violated("R20-a", "row:ParentDir", "normalize_path keeps `..` components (the ParentDir arm pushes): the result still contains "
                            "`..`", loc=normalize.loc())
             elif any(o in ("pop", "truncate", "remove", "split_off", "drain") for o in ops):
-                R.holds("R20-a", "row:ParentDir", "`..` removes the component before it")
+                need = _pop_depth_guard(body)
+                if need is not None and need >= 2:
+                    R.violated("R20-a", "row:ParentDir", "the ParentDir arm of normalize_path removes the component before `..` only when the stack "
+                               "holds at least %d components: whether `..` cancels depends on the depth, not on what precedes it, so `a/../b` "
+                               "(a relative root file importing `../x`) keeps `a`" % need, loc=normalize.loc())
+                else:
+                    R.holds("R20-a", "row:ParentDir", "`..` removes the component before it")
             elif not ops and not other:
                 R.violated("R20-a", "row:ParentDir", "the ParentDir arm of normalize_path has no effect on the component stack: `a/../b` "
                            "normalises to `a/b`, so every `#import \"../x\"` and every relative specifier lands on the wrong file", loc=normalize.loc())
